@@ -67,6 +67,9 @@ CHECKS = {
  "C01": entry(
    "Partial by design: theorems over a model of the assigner (profiles, match_consistent, nucleotide-score resolution, read-end and polyA verification, classify_assignment over regenerated event tables, the whole inconsistent path, assign_to_isoform) with the junction comparator's event lists as a quantified input: classification is sound for all event sets and the tables partition; every isoform reported by the consistent path is structurally compatible with the read (declarative Compatible), uniqueness when only one isoform is compatible, full-length isoform kept under the score condition, exact introns marked; a far read goes down the inconsistent path and is consistent only if the comparator emits no major event. The remaining clauses (comparator always emits a major event for far reads; geometric-to-profile forward direction) are carried by the oracle on in-process reads and pipeline runs for the four matching presets.",
    COMMON_NOTE + "compare_junctions is not modelled (its output is an input of the theorems; the correspondence feeds the real events). Known finding terminal_exon_misalignment_far. See docs/C01.md.", "§7 C01, docs/C01.md"),
+ "C04": entry(
+   "Theorems over a model of intron collection, the intron graph as abstract operations, path storage and the decision block of construct_fl_isoforms: for every operation history every graph vertex and every image of the correction map is an intron of some non-multimapper read's corrected alignment, hence every intron of every emitted novel model is observed (end to end from reads); .nic iff all introns annotated; the chain differs from every reference chain; surviving models keep >= 1 supporting read and transcript_model_reads refers only to stored models (min_novel_count >= 1 by decide over the regenerated presets); definite strand for the quantified reporting levels; annotation-free runs yield only novel genes; distinctness among novel models is proved under the no-shared-inner-chain hypothesis with a witness otherwise. Tied to the real IntronCollector/IntronGraph/constructor by correspondence and to pipeline GTFs by an output validator.",
+   COMMON_NOTE + "Known finding monointron_apa_duplicates. IntronGraph.simplify internals, polyA clustering and the gene joiner are watched by the pipeline oracle only. See docs/C04.md.", "§7 C04, docs/C04.md"),
  "C11": entry(
    "102 theorems for all inputs and all shifts k / mirror lengths L: every generated primitive and every function of the interval, profile and polyA-shift models is translation equivariant; primitives, sums, coverage/Jaccard sweeps, junction/exon conversion, preceding/following exon, both binary searches (index i <-> n-1-i) and the polyA/polyT count and shift pairs are mirror dual, with the exact condition (and witnesses) where the code is not; left/right event tables are closed under the swap (decide over regenerated tables). The relations are also evaluated on the real functions and the real assigner; whole-pipeline shift and reflection runs are search only.",
    COMMON_NOTE + "Three known findings (polyA finder offset, flanking-intron side naming, left-site-only intron shift). Reflection of split_exons/merge/truncate/profiles and the pipeline clauses are evaluated, not proved. See docs/C11.md.", "§7 C11, docs/C11.md"),
